@@ -66,7 +66,7 @@ func serveInjected(m *cors.Middleware, q reqT, pre http.Header, point string, n 
 	}()
 	select {
 	case <-done:
-	case <-time.After(3 * time.Second):
+	case <-time.After(15 * time.Second):
 		return o, true
 	}
 	o.delegated = o.calls > 0
